@@ -179,6 +179,17 @@ def Instr.operands : Instr R → List Nat
   | .unary _ _ a => [a]
   | .binary _ _ _ a b => [a, b]
 
+/-- does the instruction, or its derivative rule, divide (`÷`, `ln' = 1/x`, `sqrt' = 1/(2 sqrt x)`) -/
+def Instr.usesDiv : Instr R → Bool
+  | .arith .div _ _ => true
+  | .arithNum .div _ _ => true
+  | .swapped .div _ _ => true
+  | .real .ln _ => true
+  | .real .sqrt _ => true
+  | _ => false
+
+def Prog.usesDiv (p : Prog R) : Bool := p.any Instr.usesDiv
+
 def Instr.isVar : Instr R → Bool
   | .var => true
   | _ => false
@@ -200,6 +211,21 @@ def Prog.depsFrom : Prog R → List Bool → List Bool
 
 /-- for every instruction: does any input variable contribute to it -/
 def Prog.deps (p : Prog R) : List Bool := Prog.depsFrom p []
+
+/-- is instruction `i` an input variable -/
+def Prog.isInput (p : Prog R) (i : Nat) : Bool := (p.map Instr.isVar).getD i false
+
+/-- does input `i` contribute to an instruction (`rs`: the answers for the earlier ones; the
+    instruction's own position is `rs.length`) -/
+def Instr.reach (i : Nat) (rs : List Bool) (ins : Instr R) : Bool :=
+  (ins.isVar && rs.length == i) || ins.operands.any (rs.getD · false)
+
+def Prog.reachFrom (i : Nat) : Prog R → List Bool → List Bool
+  | [], rs => rs
+  | ins :: rest, rs => Prog.reachFrom i rest (rs ++ [ins.reach i rs])
+
+/-- for every instruction: does input `i` contribute to it (syntactically) -/
+def Prog.reach (p : Prog R) (i : Nat) : List Bool := Prog.reachFrom i p []
 
 /-- positions of the input variables, in creation order -/
 def Prog.varsFrom : Prog R → Nat → List Nat
